@@ -480,7 +480,7 @@ class System:
         self._g.attrs["nodes"][comp._params["name"]] = cidx
         self._g.attrs["phase_conf"][comp._params["name"]] = {}
         self._g.attrs["groups"][comp._params["name"]] = group
-        self._g.attrs["pnames"][cidx] = plist
+        self._g.attrs["pnames"][cidx] = [self._g[i]._params["name"] for i in pidx]
         if comp._component_type == _ComponentTypes.LOAD and rail != "":
             warn(
                 "rail parameter ignored, not applicable on loads",
@@ -601,6 +601,12 @@ class System:
                     )
                 )
         self._g[eidx] = comp
+        # replace node name in the lists of parent names
+        for key in self._g.attrs["pnames"]:
+            self._g.attrs["pnames"][key] = [
+                comp._params["name"] if p == name else p
+                for p in self._g.attrs["pnames"][key]
+            ]
         # replace node name in graph dict
         del [self._g.attrs["nodes"][name]]
         self._g.attrs["nodes"][comp._params["name"]] = eidx
@@ -681,8 +687,15 @@ class System:
         # restore links between new parent and childs, unless deleted
         if not del_childs:
             if childs[eidx] != -1:
+                pname = self._g[parents[eidx][0]]._params["name"]
                 for c in childs[eidx]:
                     self._g.add_edge(parents[eidx][0], c, None)
+                    self._g.attrs["pnames"][c] = list(
+                        dict.fromkeys(
+                            pname if p == name else p
+                            for p in self._g.attrs["pnames"][c]
+                        )
+                    )
 
     def tree(self, name=""):
         """Print the tree structure of the system.
